@@ -13,7 +13,7 @@
    finding class it belongs to; a new site breaks that inventory.  Panics inside csv/walkdir/std/the logger, stack exhaustion and
    allocation failure are not expressible in the model: the fuzzing half (in-process under catch_unwind and the real binary) covers them
    only by sampling. *)
-From QV Require Import Model.Base Model.Quote Model.Unquote Model.Unit Model.Parser Model.Path Model.Names Model.Convert Model.Process Proofs.C11 Proofs.C11run.
+From QV Require Import Model.Base Model.Quote Model.Unquote Model.Unit Model.Parser Model.Path Model.Names Model.Convert Model.Process Model.ProcessD Proofs.C11 Proofs.C11run Proofs.C06trees.
 
 Theorem C11_parsed_units_validated : forall text u, parse_unit text = Some u -> Validated u.
 Proof. exact parsed_units_validated. Qed.
@@ -62,3 +62,10 @@ Proof. exact load_one_no_panic. Qed.
 
 Theorem C11_stored_values_readable : forall v, ~ In 0%N v -> unquote_value (quote_value v) <> None.
 Proof. exact quote_value_reads_back. Qed.
+
+(* the run over unit files WITH their drop-ins (Model/ProcessD.v): no Panic outcome either -- the merged unit is validated *)
+Theorem C11_run_with_dropins_never_panics : forall podman exists_path kill_fixed mount_nl names_after (files : list (str * str * list str)),
+  (forall p t ds, In (p, t, ds) files -> ~ In 0%N p /\ exists f, file_name p = Some f /\ file_name f = Some f) ->
+  let '(loads, results) := process_trees podman exists_path kill_fixed mount_nl names_after files in
+  (forall p, ~ In (p, LPanic) loads) /\ (forall p, ~ In (p, RPanic) results).
+Proof. exact trees_run_no_panic. Qed.
